@@ -4,6 +4,11 @@
 //! the offset (`index`) the map ioctl hands out; the emulation hands out index = grant reference *
 //! page size, so guest page g lives at byte g * page of the memfd and every byte the library writes
 //! can be read back with pread (independent of the accessors), and logs every map / unmap request.
+//! Opcodes 15-18 are the stream entry points with a DESCRIPTOR as the other end (read_volatile_from /
+//! read_exact_volatile_from out of a memfd holding known bytes, write_volatile_to / write_all_volatile_to into an
+//! empty memfd): the transfer is a read(2)/write(2) on the guarded pointer, so the window must stay mapped across
+//! the system call.  Observed: result class (EFAULT from the kernel = r 4: no mapping covered the guest bytes when
+//! the transfer ran), device log, the bytes stored (backing memfd, pread) and the bytes the sink received (pread).
 //! case:  mode rkind size gbase page [code,off,a,b,c]*
 //! obs:   built [r,data,live,ev*]* mapped_alive mapped_end live_end      (see coq/Spec/C17.v)
 //! Every history runs in a forked child (an access outside its window would SIGSEGV); a child
@@ -145,6 +150,38 @@ struct Ctx {
     size: usize,
     shadow: Vec<u8>,
     rng: Rng,
+    /// set by a descriptor operation whose system call was refused with EFAULT
+    efault: bool,
+}
+
+/// a memfd (NOT named like the device) holding `bytes`, positioned at its start
+fn mem_file(bytes: &[u8]) -> File {
+    unsafe {
+        let fd = libc::memfd_create(b"vmh-c17stream\0".as_ptr() as *const libc::c_char, 0);
+        assert!(fd >= 0);
+        if !bytes.is_empty() {
+            let w = libc::pwrite(fd, bytes.as_ptr() as *const libc::c_void, bytes.len(), 0);
+            assert!(w == bytes.len() as isize);
+        }
+        File::from_raw_fd(fd)
+    }
+}
+/// everything a descriptor sink received (independent of the library: fstat + pread)
+fn file_content(f: &File) -> Vec<u8> {
+    use std::os::unix::io::AsRawFd;
+    unsafe {
+        let mut st: libc::stat = std::mem::zeroed();
+        assert!(libc::fstat(f.as_raw_fd(), &mut st) == 0);
+        let mut v = vec![0u8; st.st_size as usize];
+        if !v.is_empty() {
+            let r = libc::pread(f.as_raw_fd(), v.as_mut_ptr() as *mut libc::c_void, v.len(), 0);
+            assert!(r == v.len() as isize);
+        }
+        v
+    }
+}
+fn is_efault(e: &vm_memory::GuestMemoryError) -> bool {
+    matches!(e, vm_memory::GuestMemoryError::IOError(io) if io.raw_os_error() == Some(libc::EFAULT))
 }
 impl Ctx {
     fn backing(&self) -> Vec<u8> {
@@ -329,6 +366,57 @@ fn run_op(cx: &mut Ctx, op: &[u128]) -> Option<bool> {
             let exp = (cx.size - off).min(a);
             Some(got == exp && sink.len() == got && (got == 0 || sink[..] == cx.shadow[off..off + got]))
         }
+        15 => {
+            // read_volatile_from(off, &mut File holding b bytes, count = a): one read(2) into guest memory
+            let src = cx.rng.bytes(b);
+            let mut f = mem_file(&src);
+            let got = match cx.region.read_volatile_from(MemoryRegionAddress(off as u64), &mut f, a) {
+                Ok(g) => g,
+                Err(e) => {
+                    cx.efault = is_efault(&e);
+                    return None;
+                }
+            };
+            let exp = (cx.size - off).min(a).min(b);
+            if got > 0 && got <= exp {
+                cx.shadow[off..off + got].copy_from_slice(&src[..got]);
+            }
+            Some(got == exp)
+        }
+        16 => {
+            // read_exact_volatile_from(off, &mut File holding a + b bytes, count = a)
+            let src = cx.rng.bytes(a + b);
+            let mut f = mem_file(&src);
+            if let Err(e) = cx.region.read_exact_volatile_from(MemoryRegionAddress(off as u64), &mut f, a) {
+                cx.efault = is_efault(&e);
+                return None;
+            }
+            cx.shadow[off..off + a].copy_from_slice(&src[..a]);
+            Some(true)
+        }
+        17 => {
+            // write_volatile_to(off, &mut empty File, count = a): one write(2) out of guest memory
+            let mut f = mem_file(&[]);
+            let got = match cx.region.write_volatile_to(MemoryRegionAddress(off as u64), &mut f, a) {
+                Ok(g) => g,
+                Err(e) => {
+                    cx.efault = is_efault(&e);
+                    return None;
+                }
+            };
+            let exp = (cx.size - off).min(a);
+            let sink = file_content(&f);
+            Some(got == exp && sink.len() == got && (got == 0 || sink[..] == cx.shadow[off..off + got]))
+        }
+        18 => {
+            let mut f = mem_file(&[]);
+            if let Err(e) = cx.region.write_all_volatile_to(MemoryRegionAddress(off as u64), &mut f, a) {
+                cx.efault = is_efault(&e);
+                return None;
+            }
+            let sink = file_content(&f);
+            Some(sink.len() == a && (a == 0 || sink[..] == cx.shadow[off..off + a]))
+        }
         13 | 14 => {
             macro_rules! go2 {
                 ($($k:literal),*) => {
@@ -389,16 +477,18 @@ fn child(case: &[Tok], out: &mut File) {
         }
     }
     dev_take();
-    let mut cx = Ctx { region, rkind, fd, data_base, size, shadow, rng };
+    let mut cx = Ctx { region, rkind, fd, data_base, size, shadow, rng, efault: false };
     for t in &case[5..] {
         let op = t.l().to_vec();
         assert!(op.len() == 5);
         writeln!(out, "S").unwrap(); // an operation starts
+        cx.efault = false;
         let r = util::catch(|| run_op(&mut cx, &op));
         let evs = dev_take();
         let whole = cx.backing() == cx.shadow;
         let (rc, data) = match r {
             None => (2u128, whole),
+            Some(None) if cx.efault => (4, whole),
             Some(None) => (0, whole),
             Some(Some(d)) => (1, d && whole),
         };
@@ -420,7 +510,7 @@ fn exec(case: &[Tok]) -> Vec<Tok> {
     for t in &case[5..] {
         let l = t.l();
         assert!(l.len() == 5);
-        assert!(l[0] <= 14 && l[1] < (1 << 24) && l[2] < (1 << 20) && l[3] < (1 << 16) && l[4] < (1 << 16));
+        assert!(l[0] <= 18 && l[1] < (1 << 24) && l[2] < (1 << 20) && l[3] < (1 << 16) && l[4] < (1 << 16));
         if (3..=8).contains(&l[0]) {
             assert!((1..=16).contains(&l[2]));
         }
@@ -531,7 +621,7 @@ fn rand_op(rng: &mut Rng, size: u64, page: u64, allow_raw: bool) -> Tok {
     };
     let i = if rng.chance(1, 12) { nn } else { rng.below(nn.max(1)) };
     let k = if rng.bool() { nn + rng.below(3) } else { rng.below(nn + 2) };
-    let code = match rng.below(if allow_raw { 15 } else { 13 }) {
+    let code = match rng.below(if allow_raw { 19 } else { 17 }) {
         x if x < 9 => x,
         x if !allow_raw => x + 2,
         x => x,
@@ -549,6 +639,9 @@ fn rand_op(rng: &mut Rng, size: u64, page: u64, allow_raw: bool) -> Tok {
         10 => op(10, off, len, 0, 0),
         11 => op(11, off, len, if rng.bool() { len } else { rng.below(len + 3) }, 0),
         12 => op(12, off, len, 0, 0),
+        15 => op(15, off, len, if rng.bool() { len } else { rng.below(len + 3) }, 0),
+        16 => op(16, off, len, rng.below(4), 0),
+        17 | 18 => op(code, off, len, 0, 0),
         _ => op(code, off, len, t, if rng.bool() { len / t + rng.below(2) } else { rng.below(len / t + 2) }),
     }
 }
@@ -573,6 +666,10 @@ fn gen(rng: &mut Rng, tier: Tier, emit: &mut dyn FnMut(Vec<Tok>)) {
         case(rkind, size, gbase, vec![op(12, page, 0, 0, 0)]);
         case(rkind, size, gbase, vec![op(14, page, 3, 4, 1)]);
         case(rkind, size, gbase, vec![op(2, 5, 0, 0, 0)]);
+        // descriptor streams: empty transfers and refused offsets
+        case(rkind, size, gbase, vec![op(15, page, 0, 8, 0), op(16, page, 0, 2, 0), op(17, page, 0, 0, 0), op(18, 2 * page, 0, 0, 0)]);
+        case(rkind, size, gbase, vec![op(15, 2 * page, 8, 8, 0), op(15, 2 * page + 1, 8, 8, 0), op(16, 2 * page - 4, 8, 0, 0), op(18, 2 * page - 4, 8, 0, 0), op(17, 2 * page + 1, 1, 0, 0)]);
+        case(rkind, size, gbase, vec![op(15, 8, 64, 0, 0), op(15, page - 8, 64, 16, 0), op(16, page - 8, 64, 0, 0), op(18, page - 8, 64, 0, 0), op(17, page - 8, 2 * page, 0, 0)]);
     }
     // systematic: every guarded operation x offsets within / across pages, on every region kind
     let size = 3 * page;
@@ -581,7 +678,11 @@ fn gen(rng: &mut Rng, tier: Tier, emit: &mut dyn FnMut(Vec<Tok>)) {
         for &off in &[0u64, 1, 7, page - 9, page - 8, page - 1, page, page + 1, 2 * page - 3, 3 * page - 16, 3 * page - 1] {
             for &len in &[1u64, 2, 8, 9, 16, page, page + 1, 2 * page] {
                 let mut ops = vec![op(0, off, len, 0, 0), op(1, off, len, 0, 0), op(11, off, len, len, 0), op(12, off, len, 0, 0)];
+                // descriptor streams: full file, short file, sink
+                ops.extend([op(15, off, len, len, 0), op(17, off, len, 0, 0), op(15, off, len, len / 2 + 1, 0), op(1, off, len, 0, 0)]);
                 if off + len <= size {
+                    ops.push(op(16, off, len, 3, 0));
+                    ops.push(op(18, off, len, 0, 0));
                     ops.push(op(13, off, len, 1, len));
                     ops.push(op(14, off, len, 4, len / 4 + 1));
                     ops.push(op(13, off, len, 3, len / 3));
